@@ -755,7 +755,7 @@ pub fn run_c01(ctx: &Ctx, rep: &mut Report) {
         profile: Profile::default_sem(),
         ci: true,
         enum_scope: scope(ctx.tier),
-        random_lists: ctx.tier.pick(20, 1500, 60_000),
+        random_lists: ctx.tier.pick(20, 1500, 200_000),
         max_hay: 24,
     };
     drive(ctx, rep, &d, &mut |rep, pats, b, hay, sp| {
@@ -770,7 +770,7 @@ pub fn run_c02(ctx: &Ctx, rep: &mut Report) {
         profile: Profile::default_sem(),
         ci: true,
         enum_scope: scope(ctx.tier),
-        random_lists: ctx.tier.pick(20, 3000, 120_000),
+        random_lists: ctx.tier.pick(20, 3000, 300_000),
         max_hay: 24,
     };
     drive(ctx, rep, &d, &mut |rep, pats, b, hay, sp| {
@@ -785,7 +785,7 @@ pub fn run_c03(ctx: &Ctx, rep: &mut Report) {
         profile: Profile::default_sem(),
         ci: true,
         enum_scope: scope(ctx.tier),
-        random_lists: ctx.tier.pick(20, 2000, 80_000),
+        random_lists: ctx.tier.pick(20, 2000, 250_000),
         max_hay: 20,
     };
     drive(ctx, rep, &d, &mut |rep, pats, b, hay, sp| {
@@ -802,7 +802,7 @@ pub fn run_c09(ctx: &Ctx, rep: &mut Report) {
         profile: prof,
         ci: true,
         enum_scope: scope(ctx.tier),
-        random_lists: ctx.tier.pick(20, 1200, 50_000),
+        random_lists: ctx.tier.pick(20, 1200, 150_000),
         max_hay: 16,
     };
     drive(ctx, rep, &d, &mut |rep, pats, b, hay, sp| {
@@ -822,7 +822,7 @@ pub fn run_c14(ctx: &Ctx, rep: &mut Report) {
             profile: Profile::default_sem(),
             ci: true,
             enum_scope: if anchored { (0, 0) } else { scope(ctx.tier) },
-            random_lists: ctx.tier.pick(10, 800, 30_000),
+            random_lists: ctx.tier.pick(10, 800, 100_000),
             max_hay: 24,
         };
         drive(ctx, rep, &d, &mut |rep, pats, b, hay, sp| {
